@@ -180,6 +180,22 @@ func declMatrix() []declCase {
 		mainFile:            "package foo.v1\n\nimport baz.v1:baz\n\nobject Foo {\n  field bar object:baz.Bar\n}\n",
 		"baz/v1/types.proto": "syntax = \"proto3\";\n\npackage baz.v1;\n\nmessage Bar {\n  string x = 1;\n}\n",
 	}})
+	// README "Packages and Imports": "A j5s source can import a proto source, and v/v. ... `/foo/v1/bar.j5s` can be imported as
+	// `import "/foo/v1/bar.j5s.proto"`": .proto sources that import the file generated from a j5s source, of the same and of
+	// another package, and a j5s source using a type of a .proto of its own package
+	out = append(out, declCase{Name: "proto file importing a j5s file of its package", Pkg: "foo.v1", Main: mainFile, Files: map[string]string{
+		mainFile:         "package foo.v1\n\nobject Foo {\n  field x string\n}\n\nenum Kind {\n  option A\n}\n",
+		"foo/v1/b.proto": "syntax = \"proto3\";\n\npackage foo.v1;\n\nimport \"foo/v1/a.j5s.proto\";\n\nmessage UsesFoo {\n  Foo foo = 1;\n  foo.v1.Kind kind = 2;\n}\n",
+	}})
+	out = append(out, declCase{Name: "proto file importing a j5s file of another package", Pkg: "foo.v1", Main: mainFile, Files: map[string]string{
+		mainFile:           "package foo.v1\n\nobject Foo {\n  field x string\n}\n",
+		"foo/v1/b.proto":   "syntax = \"proto3\";\n\npackage foo.v1;\n\nimport \"baz/v1/types.j5s.proto\";\n\nmessage UsesBar {\n  baz.v1.Bar bar = 1;\n}\n",
+		"baz/v1/types.j5s": "package baz.v1\n\nobject Bar {\n  field x string\n}\n",
+	}})
+	out = append(out, declCase{Name: "j5s file using a type of a proto file of its package", Pkg: "foo.v1", Main: mainFile, Files: map[string]string{
+		mainFile:         "package foo.v1\n\nobject Foo {\n  field bar object:Bar\n  field bars array:object:Bar\n}\n\nservice FooService {\n  basePath = \"/foo/v1\"\n  method GetFoo {\n    httpMethod = \"POST\"\n    httpPath = \"/foo\"\n    request {\n      field bar object:Bar\n    }\n    response {\n      field bar object:Bar\n    }\n  }\n}\n",
+		"foo/v1/b.proto": "syntax = \"proto3\";\n\npackage foo.v1;\n\nmessage Bar {\n  string x = 1;\n}\n",
+	}})
 	out = append(out, declCase{Name: "implicit import j5.state.v1", Pkg: "foo.v1", Main: mainFile, Files: map[string]string{
 		mainFile: "package foo.v1\n\nobject Foo {\n  field metadata object:j5.state.v1.StateMetadata\n}\n",
 	}})
@@ -218,6 +234,14 @@ func semanticErrors() []declCase {
 	add("oneof with an array member", "oneof Ch {\n  option a array:string\n}\n", false)
 	add("oneof with a map member", "oneof Ch {\n  option a map:string\n}\n", false)
 	add("service without name", "service {\n  basePath = \"/foo\"\n}\n", true)
+	// names that are not protobuf identifiers (the lexer takes any unicode letter): positioned conversion errors since /repo c71d8d9
+	add("non-ASCII object name", "object Élan {\n  field name string\n}\n", true)
+	add("non-ASCII field name", "object Foo {\n  field naïve string\n}\n", true)
+	add("non-ASCII enum option", "enum Kind {\n  option Ä\n  option B\n}\n", true)
+	add("non-ASCII oneof option", "oneof Ch {\n  option naïve object {\n  }\n}\n", true)
+	add("non-ASCII service and method names", "service Fé {\n  basePath = \"/foo\"\n  method Bär {\n    httpMethod = \"GET\"\n    httpPath = \"/bar\"\n    request {\n    }\n  }\n}\n", true)
+	add("non-ASCII entity name", "entity Élan {\n  key elanId key:id62 {\n    primary = true\n  }\n  status ACTIVE\n  event Created {\n  }\n}\n", true)
+	add("non-ASCII inline field name", "object Foo {\n  field inner object {\n    field ü string\n  }\n}\n", true)
 	add("entity status filter unknown", "entity Foo {\n  key fooId key:id62 {\n    primary = true\n  }\n  status ACTIVE\n  query.defaultStatusFilter = [\"NOPE\"]\n}\n", false)
 	add("entity duplicate summary", "entity Foo {\n  key fooId key:id62 {\n    primary = true\n  }\n  status ACTIVE\n  summary A {\n    field x string\n  }\n  summary A {\n    field y string\n  }\n}\n", false)
 	// inline types with an empty block (reported by cmpa2: the front end leaves EnumField.Schema nil): whatever the verdict, positioned
